@@ -60,6 +60,13 @@ def app(op, *args):
     return ("app", op) + tuple(args)
 
 
+def mkphi(g, a, b):
+    """(a if g else b) with a positive guard: `a if not c else b` is `b if c else a`"""
+    while isinstance(g, tuple) and len(g) == 3 and g[0] == "app" and g[1] == "not":
+        g, a, b = g[2], b, a
+    return ("phi", g, a, b)
+
+
 def is_app(t, op=None):
     return isinstance(t, tuple) and len(t) >= 2 and t[0] == "app" and (op is None or t[1] == op)
 
